@@ -43,6 +43,25 @@ def run_cases(pid, cases, tag="impl", timeout=1500, jit=True, per_worker_min=6):
     return out
 
 
+def run_cases_confirmed(pid, cases, tag="impl"):
+    """run_cases, then every case that ended in a time limit or a dead worker is run again ALONE with a
+    generous limit (300 s per call): wall-clock verdicts must not fire because the machine is busy"""
+    out = run_cases(pid, cases, tag=tag)
+    redo = [i for i, rr in enumerate(out)
+            if any(str(r.get("exc", "")).startswith(("TIMEOUT", "PROCESS-")) for r in rr)]
+    for i in redo:
+        c = dict(cases[i], ops=[dict(o, timeout=300) for o in cases[i]["ops"]])
+        res = cm.run_impl(pid, "narrowp", dict(cases=[c]), timeout=900, tag=tag + "_confirm")
+        if res["status"] == "ok":
+            out[i] = res["result"]["results"][0]
+            for r in out[i]:
+                r["confirmed_alone"] = True
+        else:
+            out[i] = [dict(fn=o["fn"], exc=f"PROCESS-{res['status'].upper()}", exc_msg=f"confirmed alone with a 900 s limit: rc={res.get('rc')} {res.get('log', '')[-200:]}",
+                           support_calls=0, arms={}, confirmed_alone=True) for o in c["ops"]]
+    return out
+
+
 def par_map(pid, module, func, args, tag="prep", timeout=1500):
     """[harness.props.<module>.<func>(a) for a in args], spread over worker processes (common.run_impl slots)"""
     args = list(args)
